@@ -372,7 +372,13 @@ def rule_e(ctx):
 def rule_f(ctx):
     K.check_floors(ctx, "C06")
 
+def rule_g(ctx):
+    from . import c12
+    c12.rule_f(ctx)
+
+
 RULES = [
+    ("C06.g", "the observed mailbox length is independent of the closed flag", rule_g),
     ("C06.f", "release/acquire floors of the idle-pool publication", rule_f),
     ("C06.a", "message counter mutated only at the reviewed sites", rule_a),
     ("C06.b", "fold before deactivation; count read only when idle", rule_b),
